@@ -321,16 +321,24 @@ class Simulator(Computer, _mixins.CodeMixin):
             if not is_instruction_resolved:
                 instruction._resolve_params(outcomes=branch.outcome)
 
-            if self.config.validate:
-                instruction._validate(self._connector)
+            try:
+                if self.config.validate:
+                    instruction._validate(self._connector)
 
-            current_shots = int(branch.frequency * shots) if shots is not None else None
+                current_shots = (
+                    int(branch.frequency * shots) if shots is not None else None
+                )
 
-            subbranches = simulation_step(
-                branch.state,
-                instruction,
-                shots=current_shots,
-            )
+                subbranches = simulation_step(
+                    branch.state,
+                    instruction,
+                    shots=current_shots,
+                )
+            finally:
+                # NOTE: The user's parameters need to be restored even if the
+                # validation or the simulation step raises.
+                if not is_instruction_resolved:
+                    instruction._unresolve_params()
 
             for subbranch in subbranches:
                 # NOTE: This updates the branches with the previous outcome, and the
@@ -341,9 +349,6 @@ class Simulator(Computer, _mixins.CodeMixin):
                 subbranch.frequency *= branch.frequency
 
             new_branches.extend(subbranches)
-
-            if not is_instruction_resolved:
-                instruction._unresolve_params()
 
         return new_branches
 
@@ -367,14 +372,19 @@ class Simulator(Computer, _mixins.CodeMixin):
 
             instruction.modes = Simulator._remap_modes(active_modes, instruction.modes)
 
-            branches = self._apply_instruction_to_branches(branches, instruction, shots)
-
-            if isinstance(instruction, Measurement):
-                active_modes = Simulator._delete_modes_from_active(
-                    active_modes, instruction.modes
+            try:
+                branches = self._apply_instruction_to_branches(
+                    branches, instruction, shots
                 )
 
-            instruction._modes = original_modes
+                if isinstance(instruction, Measurement):
+                    active_modes = Simulator._delete_modes_from_active(
+                        active_modes, instruction.modes
+                    )
+            finally:
+                # NOTE: The modes specified by the user need to be restored even if
+                # the execution of the instruction raises.
+                instruction._modes = original_modes
 
         return Result(config=self.config, branches=branches, shots=shots)
 
